@@ -164,7 +164,27 @@ pub fn exercise_with_deadline(text: &str) -> Result<Option<(String, String)>, St
 }
 
 /// subprocess probe for sizes that may overflow the stack: `iwe-verif crash-probe <kind> <n>`
+/// a library of `n` notes in which note i includes (block reference) every note j > i: an acyclic "index of
+/// indexes".  Start-up computes all outline paths, one per chain of references: 2^(n-2) of them end in the last note
+pub fn dense_refs_probe(n: usize) {
+    let mut st = HashMap::new();
+    for i in 0..n {
+        let mut t = format!("# Note {}\n\n", i);
+        for j in (i + 1)..n {
+            t.push_str(&format!("[n](n{})\n\n", j));
+        }
+        st.insert(format!("n{}", i), t);
+    }
+    let start = std::time::Instant::now();
+    let db = liwe::database::Database::new(st, true, MarkdownOptions::default());
+    println!("OK {} paths in {} ms", db.graph().search_paths().len(), start.elapsed().as_millis());
+}
+
 pub fn crash_probe(kind: &str, n: usize) {
+    if kind == "dense-refs" {
+        dense_refs_probe(n);
+        return;
+    }
     let text = match kind {
         "siblings" => "para\n\n".repeat(n),
         "items" => "- item\n".repeat(n),
@@ -270,6 +290,19 @@ pub fn run(ctx: &Ctx, model: &mut Model, rep: &mut Report) {
                 match Command::new(exe).args(["crash-probe", "self-inline", "0"]).output() {
                     Ok(o) if o.status.success() => "ok".to_string(),
                     Ok(o) => format!("ABORT ({})", o.status),
+                    Err(e) => e.to_string(),
+                }
+            } else if k == "dense-refs" {
+                // finding D35: the number of outline paths computed at start-up doubles with every note of an
+                // acyclic index-of-indexes (time and memory follow): decided by the count, not by a clock
+                let n = f.witness["n"].as_u64().unwrap_or(14) as usize;
+                let exe = std::env::current_exe().unwrap();
+                match Command::new(exe).args(["crash-probe", "dense-refs", &n.to_string()]).output() {
+                    Ok(o) => {
+                        let s = String::from_utf8_lossy(&o.stdout).to_string();
+                        let paths = s.split_whitespace().nth(1).and_then(|x| x.parse::<u64>().ok()).unwrap_or(0);
+                        if paths >= 1u64 << (n - 1) { format!("{} notes: {} outline paths", n, paths) } else { "ok".to_string() }
+                    }
                     Err(e) => e.to_string(),
                 }
             } else {
